@@ -341,12 +341,15 @@ def replay(prop, spec, features=(), hook=False):
     tests = [(h, t) for (h, t) in tests if "Check for `cover`" not in t]
     if not tests:
         return False, None, "Kani produced no concrete playback test for a failed check"
-    mod, fn = spec.name.rsplit("::", 1)
+    parts = spec.name.split("::")
+    mod, fn = parts[0], parts[-1]
+    inner = "::".join(parts[1:])  # path of the harness fn relative to the top-level module file (nested inline modules)
     scratch = os.path.join(BUILD, "replay_" + spec.name.replace("::", "__"))
     shutil.rmtree(scratch, ignore_errors=True)
     shutil.copytree(E1_DIR, scratch)
-    src = os.path.join(scratch, "src", mod.replace("::", "/") + ".rs")
+    src = os.path.join(scratch, "src", mod + ".rs")
     names = []
+    tests = [(h, re.sub(r"(concrete_playback_run\(concrete_vals,\s*)%s\)" % re.escape(fn), r"\g<1>%s)" % inner, t)) for (h, t) in tests]
     with open(src, "a") as f:
         for (h, t) in tests:
             f.write("\n" + t + "\n")
@@ -402,7 +405,7 @@ def replay_file_cmd(prop, replay_file, features=(), hook=False):
     if not m:
         raise SystemExit("not an E1 replay file")
     name = m.group(1)
-    mod, fn = name.rsplit("::", 1)
+    mod, fn = name.split("::")[0], name.split("::")[-1]
     scratch = os.path.join(BUILD, "replay_" + name.replace("::", "__"))
     shutil.rmtree(scratch, ignore_errors=True)
     shutil.copytree(E1_DIR, scratch)
